@@ -333,7 +333,10 @@ class Slicer:
         return slice(start, stop, step)
 
     def __getitem__(self, item):
-        # negative indexing not supported
+        for part in (item if isinstance(item, tuple) else (item,)):
+            if isinstance(part, bool) or (isinstance(part, slice) and
+                                          any(isinstance(bound, bool) for bound in (part.start, part.stop, part.step))):
+                raise TypeError("Invalid slice.")  # (as on the plate: True is not the index 1)
         if isinstance(self.slices, list):
             new_slicer = copy(self)
             new_slicer.__dict__.pop('shape', None)  # cached for the parent selection
